@@ -515,6 +515,7 @@ class World:
         self.choice_pos = 0
         self.choice_log: list = []
         self.fork_budget = 64
+        self.exploring = False
         self.set_order = "fork"  # or "insertion"
         self.events: list = []
         self.alloc: list = []  # objects allocated during evaluation, in order
@@ -600,12 +601,15 @@ class World:
                 d[k] = _deepcopy_state(v)
 
     def reset_run(self, choices=()):
-        self.restore()
-        self.steps = 0
-        self.depth = 0
+        self.reset_state()
         self.choices = list(choices)
         self.choice_pos = 0
         self.choice_log = []
+
+    def reset_state(self):
+        self.restore()
+        self.steps = 0
+        self.depth = 0
         self.events = []
         self.alloc = []
 
@@ -613,6 +617,8 @@ class World:
     def choose(self, n, tag):
         """Return an index < n for an undecided n-way condition; recorded, so that the driver can
         re-run with the last open choice flipped."""
+        if not self.exploring:
+            raise Unknown(f"undecided condition ({tag}) outside a forking exploration")
         if self.choice_pos < len(self.choices):
             c = self.choices[self.choice_pos]
         else:
@@ -631,7 +637,11 @@ class World:
         runs = 0
         while True:
             self.reset_run(prefix)
-            res = thunk()
+            self.exploring = True
+            try:
+                res = thunk()
+            finally:
+                self.exploring = False
             runs += 1
             if runs > 4096:
                 raise Unknown("too many forks")
